@@ -41,6 +41,14 @@ def deepcanon(x, depth=0):
   return ('obj', type(x).__name__)
 
 
+def canonical_name(m):
+  """Reference normalisation for the harness's own (well-formed) tagged names: tags sorted by key."""
+  if ';' not in m:
+    return m
+  name, rest = m.split(';', 1)
+  return name + ''.join(';%s' % t for t in sorted(rest.split(';')))
+
+
 class SeqCache(evx.System):
   def __init__(self, p):
     self.p = p
@@ -123,7 +131,7 @@ class SeqCache(evx.System):
         self.proc.process(m, (tsx, v))
       except Exception as e:   # noqa
         return ('exception:%s:%s' % (strat, type(e).__name__), 'store%r raised %r' % (ev[1:], e))
-      want = self.ref.store(m, tsx, v)
+      want = self.ref.store(canonical_name(m), tsx, v)
       got = self.overflow - before
       if got != want:
         return ('refusal', 'store(%s,%s) signalled overflow %d times, reference expects %d' % (m, tsx, got, want))
